@@ -733,3 +733,67 @@ def r14_13_chunked_reads_ask_for_the_rest(ctx: Ctx) -> RuleResult:
                 else:
                     rr.fail(f.qual, f"`{unparse(r)[:60]}` inside a buffer-filling loop does not ask for the remaining byte count (length - len(buffer)): after a short read it reads past the end of the value", ctx.loc(f, r))
     return rr
+
+
+# ------------------------------------------------------------------------------------------- R14.14 / R14.15
+
+
+@rule("C14")
+def r14_14_decoder_rewrites_mirror_the_encoder(ctx: Ctx) -> RuleResult:
+    """A decoder may turn a value it has read into another one only where the encoder did the reverse: `_ZoneRecurrence._write` stores
+    `max(from_year, 0)` and `read` maps 0 back to the minimum; `to_year` is written as it is and must be read as it is.  For every
+    local that a `read` classmethod of the zone layer fills from a reader call and later REASSIGNS, the encoder argument at the
+    same position must be a computed expression too; a rewrite on one side only (`to_year >= 9999 -> infinity`) makes values
+    that the writer accepts read back as different values."""
+    from .. import codecpaths  # noqa: F401  (same package; kept for locality of the codec rules)
+
+    rr = RuleResult("R14.14", "decoders of the zone layer rewrite a value they have read only where the encoder rewrote it when writing (position by position)", min_instances=1)
+    M = ctx.M
+    for c in sorted(M.all_classes(), key=lambda x: x.qual):
+        if not c.mod.rel.startswith("pyoda_time/time_zones/") or "read" not in c.methods or not ({"_write", "write"} & set(c.methods)):
+            continue
+        rd, wr = c.methods["read"], c.methods.get("_write") or c.methods.get("write")
+        if isinstance(rd.node, ast.Lambda) or isinstance(wr.node, ast.Lambda):
+            continue
+        reads = []  # (local, statement) in reading order
+        for s_ in rd.body:
+            if isinstance(s_, (ast.Assign, ast.AnnAssign)) and s_.value is not None and isinstance(s_.value, ast.Call) and isinstance(s_.value.func, ast.Attribute) and s_.value.func.attr.startswith("read"):
+                t = s_.targets[0] if isinstance(s_, ast.Assign) else s_.target
+                if isinstance(t, ast.Name):
+                    reads.append((t.id, s_))
+        writes = [n for n in own_nodes(wr.node) if isinstance(n, ast.Call) and isinstance(n.func, ast.Attribute) and (n.func.attr.startswith("write") or n.func.attr == "_write")]
+        writes.sort(key=lambda n: (n.lineno, n.col_offset))
+        if not reads or len(reads) != len(writes):
+            continue
+        for k, (name, st) in enumerate(reads):
+            later = [n for n in own_nodes(rd.node) if isinstance(n, (ast.Assign, ast.AugAssign)) and n.lineno > st.lineno and any(isinstance(t, ast.Name) and t.id == name for t in (n.targets if isinstance(n, ast.Assign) else [n.target]))]
+            if not later:
+                continue
+            rr.inst()
+            wa = writes[k].args[0] if writes[k].args else (writes[k].func.value if writes[k].func.attr == "_write" else None)
+            computed = wa is not None and not isinstance(wa, (ast.Attribute, ast.Name))
+            if computed:
+                rr.ok({"class": c.qual, "field": name, "encoder": unparse(wa)[:50], "decoder": unparse(later[0])[:50]})
+            else:
+                rr.fail(rd.qual, f"`{name}` is rewritten after being read (`{unparse(later[0])[:60]}`) although the encoder writes it unchanged (`{unparse(writes[k])[:60]}`): a value the writer accepts reads back as another value", ctx.loc(rd, later[0]))
+    return rr
+
+
+@rule("C14")
+def r14_15_count_limit_is_not_in_the_shared_varint(ctx: Ctx) -> RuleResult:
+    """`read_count` rejects values above Int32.MaxValue; `read_signed_count` decodes a zig-zag value from the SAME unsigned
+    varint, whose unsigned form reaches 2**32 - 1 for the signed int32 range.  The Int32 limit therefore belongs to read_count and
+    must not sit in the shared varint reader, or signed counts from 2**30 upwards (and below -2**30) no longer read back."""
+    rr = RuleResult("R14.15", "the Int32 limit of unsigned counts is checked in read_count, not in the varint reader it shares with the zig-zag signed counts", min_instances=1)
+    M = ctx.M
+    c = M.cls("_DateTimeZoneReader")
+    rr.inst()
+    where = [g.name.split("__")[-1] for g in c.all_defs if not isinstance(g.node, ast.Lambda) and any(isinstance(n, ast.Compare) and "INT_MAX_VALUE" in unparse(n) for n in own_nodes(g.node))]
+    signed = M.find_method(c, "read_signed_count")
+    shared = {n.func.attr.split("__")[-1] for n in own_nodes(signed.node) if isinstance(n, ast.Call) and isinstance(n.func, ast.Attribute)} if signed is not None else set()
+    bad = [w for w in where if w in shared]
+    if "read_count" in where and not bad:
+        rr.ok({"limit checked in": where})
+    else:
+        rr.fail(f"{c.qual}.{(bad or where or ['?'])[0]}", f"the Int32.MaxValue limit is checked in {where}; read_signed_count decodes through {sorted(shared)}: half of the signed 32-bit range can no longer be read", f"{c.mod.rel}:{c.node.lineno}")
+    return rr
